@@ -586,6 +586,7 @@ func (pk *Packet) DisconnectDecode(buf []byte) error {
 
 // PingreqEncode encodes a Pingreq packet.
 func (pk *Packet) PingreqEncode(buf *bytes.Buffer) error {
+	pk.FixedHeader.Remaining = 0 // the packet has no variable header and no payload
 	pk.FixedHeader.Encode(buf)
 	return nil
 }
@@ -597,6 +598,7 @@ func (pk *Packet) PingreqDecode(buf []byte) error {
 
 // PingrespEncode encodes a Pingresp packet.
 func (pk *Packet) PingrespEncode(buf *bytes.Buffer) error {
+	pk.FixedHeader.Remaining = 0 // the packet has no variable header and no payload
 	pk.FixedHeader.Encode(buf)
 	return nil
 }
